@@ -325,6 +325,46 @@ def r06_5(chk, tier):
             else: chk.fail('R06.5', site, fn['file'], c.get('l'), '%s writes a string (%s) at line %s without stringref accounting: with pack_strings a decoder gives this string an index the encoder does not count, and every later reference resolves to the wrong string' % (fn['n'], what, c.get('l')), None, fn['q'])
     chk.require(n >= 12, 'R06.5: only %d string writes found in the CBOR encoder' % n)
 
+def r06_6(chk, tier):
+    """Typed arrays unrolled element by element keep the element kind."""
+    import re as _re
+    chk.rule('R06.6', 'typed-array element events: every visit_typed_array overload that unrolls its span into single events (the default '
+                      'implementations of json_visitor / generic_visitor and the CBOR encoder without typed-array support) emits the event of '
+                      'the element type: unsigned integers -> uint64_value, signed integers -> int64_value, float/double -> double_value, '
+                      'half (half_arg) -> half_value; a signed element sent as uint64_value turns -1 into 18446744073709551615', floor=30)
+    EV = {'uint64_value': 'unsigned', 'visit_uint64': 'unsigned', 'int64_value': 'signed', 'visit_int64': 'signed',
+          'double_value': 'floating', 'visit_double': 'floating', 'half_value': 'half', 'visit_half': 'half'}
+    n = 0
+    for unit in ('core', 'cbor'):
+        facts = F.load([unit], tier)
+        if unit not in chk.units: chk.units.append(unit)
+        seen = set()
+        for fn in facts.functions:
+            if fn['n'] != 'visit_typed_array' or fn.get('body') is None or (fn['file'], fn['l']) in seen: continue
+            calls = [c for c in A.calls_in(fn['body'], no_lambda=True) if A.callee_name(c) in EV]
+            if not calls: continue
+            seen.add((fn['file'], fn['l']))
+            chk.analysed(fn)
+            pts = [fn['_types'][p['t'] - 1] for p in fn['params']]
+            half = any('half_arg' in t for t in pts[:1])
+            spans = [t for t in pts if 'span<' in t]
+            m = _re.search(r'span<const ([a-z _0-9]+?)\s*[,>]', spans[0]) if spans else None
+            chk.require(m is not None, 'R06.6: element type of %s not recognised (%s)' % (fn['q'], pts[:2]))
+            et = m.group(1).strip()
+            if half: want = 'half'
+            elif et in ('float', 'double', 'long double'): want = 'floating'
+            elif et.startswith('unsigned') or et in ('uint8_t', 'uint16_t', 'uint32_t', 'uint64_t', 'bool'): want = 'unsigned'
+            else: want = 'signed'
+            for c in calls:
+                n += 1
+                got = EV[A.callee_name(c)]
+                site = U.site(fn, 'elements of span<%s>%s' % (et, ' (half)' if half else ''))
+                if got == want: chk.ok('R06.6', site, {'function': fn['q'], 'event': A.callee_name(c)})
+                else:
+                    chk.fail('R06.6', site, fn['file'], c.get('l'), '%s over span<const %s>%s emits %s for each element: %s elements are reported as %s values' % (
+                        fn['n'], et, ' with half_arg' if half else '', A.callee_name(c), want, got), None, fn['q'])
+    chk.require(n >= 30, 'R06.6: only %d element events found in visit_typed_array overloads' % n)
+
 def r06_4(chk, tier):
     chk.rule('R06.4', 'CBOR tag symmetry: for every semantic tag the encoder writes as CBOR tag N on a text or byte string, the decoder maps '
                       'tag N on that major type back to the same semantic tag', floor=7)
@@ -573,6 +613,38 @@ def r06_timestamp(chk, facts):
                 if why is None: chk.ok('R06.msgpack', site, {'marker': '0x%02x' % b[0][1]} if (sv, nv) in ((0, 0), (1 << 32, 0), (1 << 34, 1)) else None)
                 else: chk.fail('R06.msgpack', U.site(fn, 'timestamp form'), fn['file'], b[0][2] if b else fn['l'], 'write_timestamp(seconds=%d, nanoseconds=%d): %s' % (sv, nv, why), None, fn['q'])
 
+def r06_timestamp_unpack(chk, facts):
+    """The decoder splits the 64-bit timestamp word at the bit where the encoder joined it."""
+    enc = [f for f in U.functions(facts, cls='basic_msgpack_encoder', name='write_timestamp') if f.get('body') is not None]
+    chk.require(enc, 'basic_msgpack_encoder::write_timestamp not found')
+    joins = set()
+    for x in A.walk_no_lambda(U.one_per_inst(enc)[0]['body']):
+        if x.get('k') == 'BinaryOperator' and x.get('op') == '|':
+            for y in A.walk(x):
+                if y.get('k') == 'BinaryOperator' and y.get('op') == '<<' and A.const(y.get('rhs')) is not None: joins.add(A.const(y['rhs']))
+    chk.require(len(joins) == 1, 'write_timestamp: the `(nanoseconds << K) | seconds` join was not recognised (%s)' % sorted(joins))
+    K = joins.pop()
+    n = 0
+    for fn in U.one_per_inst([f for f in U.functions(facts, cls='basic_msgpack_parser') if f.get('body') is not None]):
+        masks = {}; shifts = {}
+        for d in A.walk_no_lambda(fn['body']):
+            if d.get('k') != 'VarDecl' or d.get('init') is None: continue
+            i = A.strip(d['init'], casts=True)
+            if i is None or i.get('k') != 'BinaryOperator' or i.get('op') not in ('&', '>>'): continue
+            v = A.strip(i.get('lhs'), casts=True); c = A.const(i.get('rhs'))
+            if v is None or v.get('k') != 'DeclRefExpr' or c is None: continue
+            (masks if i['op'] == '&' else shifts)[v.get('id')] = (c, d)
+        for vid in set(masks) & set(shifts):
+            n += 1
+            chk.analysed(fn)
+            (m, dm), (sh, ds) = masks[vid], shifts[vid]
+            site = U.site(fn, 'timestamp64 split')
+            if sh == K and m == (1 << K) - 1: chk.ok('R06.msgpack', site, {'shift': sh, 'mask': hex(m), 'encoder_join': K})
+            else:
+                chk.fail('R06.msgpack', site, fn['file'], dm.get('l'), 'timestamp64: the decoder takes seconds = word & %s and nanoseconds = word >> %d, the encoder writes '
+                         '(nanoseconds << %d) | seconds: seconds above 2^%d are truncated or mixed with the nanoseconds' % (hex(m), sh, K, bin(m).count('1')), None, fn['q'])
+    chk.require(n >= 1, 'msgpack parser: the split of the 64-bit timestamp word (mask and shift of one local) was not found')
+
 def run(chk, tier, only_rule=None):
     chk.explanation = EXPLANATION
     chk.not_decided = NOT_DECIDED
@@ -580,6 +652,9 @@ def run(chk, tier, only_rule=None):
     r06_3(chk, tier)
     r06_4(chk, tier)
     r06_5(chk, tier)
+    r06_6(chk, tier)
+    from . import c08
+    c08.r08_4(chk, tier)      # what the encoders hand to a stream sink is what reaches the stream
 
 def ladders(chk, tier):
     # ---- MessagePack
@@ -607,6 +682,7 @@ def ladders(chk, tier):
         check_ladder(chk, 'R06.msgpack', facts, fn, 'length', 0, U64, lambda v, o, fam=('ext' if is_ext else 'bin'): msgpack_decode(rows, v, o, fam), label='visit_byte_string(%s)' % ('ext' if is_ext else 'bin'))
     r06_scalars_msgpack(chk, facts, rows)
     r06_timestamp(chk, facts)
+    r06_timestamp_unpack(chk, facts)
     for fn in one('basic_msgpack_encoder', 'visit_begin_array', lambda f: len(f['params']) == 4):
         check_ladder(chk, 'R06.msgpack', facts, fn, 'length', 0, U64, lambda v, o: msgpack_decode(rows, v, o, 'array'))
     for fn in one('basic_msgpack_encoder', 'visit_begin_object', lambda f: len(f['params']) == 4):
